@@ -828,6 +828,9 @@ class _RecordingEvi:
 def _pair_cfgs():
     out = [{'n': 1, 'a': f} for f in EVENT_FAMILIES + SINGLE_ONLY]
     out += [{'n': 2, 'a': a, 'b': b} for a in FIRST_FAMILIES for b in EVENT_FAMILIES]
+    # triples: a channel message, something that must cancel running status (or not), the same kind of channel message again
+    out += [{'n': 3, 'a': a, 'b': b, 'c': a} for a in ('note_on', 'program_change')
+            for b in ('sysex2', 'meta:set_tempo', 'unknown_meta2', 'tune_request', 'meta:end_of_track', 'note_off')]
     return tuple(out)
 
 
@@ -898,7 +901,7 @@ class WriteTrackEvents(Contract):
     def inputs(self, h, cfg):
         h.specs = []
         msgs = []
-        for i, fam in enumerate([cfg['a']] + ([cfg['b']] if cfg['n'] == 2 else [])):
+        for i, fam in enumerate([cfg['a']] + ([cfg['b']] if cfg['n'] >= 2 else []) + ([cfg['c']] if cfg['n'] >= 3 else [])):
             o, sp = event_obj(h, fam, i)
             msgs.append(o)
             h.specs.append(sp)
@@ -945,10 +948,22 @@ class WriteTrackEvents(Contract):
         def chunk(d, L):
             from pyvc.dsl import idiv, imod
             return cat(seq(list(b"MTrk")), seq([imod(idiv(L, 16777216), 256), imod(idiv(L, 65536), 256), imod(idiv(L, 256), 256), imod(L, 256)]), d)
-        if conds_rs:
-            same = And(*conds_rs)
-            out['canonical-encoding-with-running-status'] = Implies(same, And(*concat_eq(w, chunk(data_rs, L1))))
-            out['canonical-encoding-without-running-status'] = Implies(Not(same), And(*concat_eq(w, chunk(data_full, L2))))
+        chans = [i for i, p in enumerate(parts) if isinstance(p, tuple) and p and p[0] == 'chan' and p[2] is not None]
+        if chans:
+            import itertools
+            for choice in itertools.product((True, False), repeat=len(chans)):
+                pick = dict(zip(chans, choice))
+                idx = [0]
+
+                def use(sp, rs, pick=pick, idx=idx):
+                    # called once per channel part that has a previous running status, in order
+                    k = chans[idx[0]]
+                    idx[0] += 1
+                    return pick[k]
+                d, conds = flatten_parts(parts, use)
+                Ld = length(d)
+                out['canonical-encoding[running-status=%s]' % ','.join('yes' if x else 'no' for x in choice)] = \
+                    Implies(And(*conds) if conds else True, And(*concat_eq(w, chunk(d, Ld))))
         else:
             out['canonical-encoding'] = And(*concat_eq(w, chunk(data_full, L2)))
         h.chunk_lengths = (L1, L2)
@@ -1158,6 +1173,7 @@ class _EventLoop(LoopSpec):
       - 0xFF -> meta event (never becomes running status); 0xF0 / 0xF7 -> sysex event; anything else -> read_message
       - the message returned by the callee is appended to the track; delta / clip are passed on"""
     header = 'True'
+    modifies = ('last_status', 'track')
 
     def enter(self, ip, fr, seqv):
         st = LoopSpec.enter(self, ip, fr, None)
